@@ -325,6 +325,9 @@ func pathSegs(p string) []string {
 	return segs
 }
 
+// walkInline: also report inline objects (with an x-id) found at positions that may hold a reference.
+var walkInline bool
+
 // walkRefs collects every reference site (a *XRef with a non-empty Ref) reachable from v.
 func walkRefs(v reflect.Value, owner, path string, seen map[uintptr]bool, out *[]c02Site, depth int) {
 	if depth > 60 || !v.IsValid() {
@@ -366,6 +369,11 @@ func walkRefs(v reflect.Value, owner, path string, seen map[uintptr]bool, out *[
 					}
 				}
 				*out = append(*out, c02Site{Owner: owner, Path: path, Ref: ref, Kind: kind, Got: got, Where: where})
+			} else if walkInline && !val.IsNil() {
+				// an inline object at a position that may hold a reference (C16: a reference may be inlined)
+				if id := xidOf(val); id != "" {
+					*out = append(*out, c02Site{Owner: owner, Path: path, Ref: "", Kind: kind, Got: id})
+				}
 			}
 			if !val.IsNil() {
 				o := owner
@@ -520,4 +528,126 @@ func init() {
 	}}
 	drivers["C02"] = d
 	drivers["C11"] = d
+}
+
+// ---------------------------------------------------------------------------------------------
+// C16: InternalizeRefs on the loaded universe.
+
+func collectRefStrings(v any, out *[]any) {
+	switch x := v.(type) {
+	case map[string]any:
+		for k, e := range x {
+			if k == "$ref" {
+				if s, ok := e.(string); ok {
+					file, frag, _ := strings.Cut(s, "#")
+					segs := []any{}
+					for _, p := range strings.Split(strings.TrimPrefix(frag, "/"), "/") {
+						segs = append(segs, p)
+					}
+					*out = append(*out, map[string]any{"text": s, "file": file, "frag": segs})
+				}
+				continue
+			}
+			collectRefStrings(e, out)
+		}
+	case []any:
+		for _, e := range x {
+			collectRefStrings(e, out)
+		}
+	}
+}
+
+func c02SitesJSON(doc *openapi3.T, dir string) []any {
+	var sites []c02Site
+	walkInline = true
+	defer func() { walkInline = false }()
+	walkRefs(reflect.ValueOf(doc), "root", "", map[uintptr]bool{}, &sites, 0)
+	out := []any{}
+	for _, s := range sites {
+		s.Where = ""
+		s.Ref = strings.ReplaceAll(s.Ref, filepath.ToSlash(dir), "<T>")
+		s.Segs = pathSegs(s.Path)
+		out = append(out, s)
+	}
+	return out
+}
+
+func validateVerdict(doc *openapi3.T) string {
+	var verr error
+	if p, _ := guard(func() { verr = doc.Validate(context.Background()) }); p {
+		return "panic"
+	} else if verr != nil {
+		return "error"
+	}
+	return "ok"
+}
+
+func c16Run(c *Case) []any {
+	var tc c02Case
+	c.Decode(&tc)
+	var raw map[string]any
+	c.Decode(&raw)
+	delete(raw, "files")
+	line := map[string]any{"case": c.Idx, "c": raw}
+	c02Salt = fmt.Sprintf("~%d", c.Idx)
+	var ld *c02Loaded
+	p, _ := guard(func() { ld = c02Load(&tc, true) })
+	if ld != nil {
+		defer os.RemoveAll(ld.dir)
+	}
+	if p || ld.err != nil {
+		line["load"] = "error" // not judged here (C02's business); counted
+		return []any{line}
+	}
+	line["load"] = "ok"
+	line["before"] = c02SitesJSON(ld.doc, ld.dir)
+	line["vb"] = validateVerdict(ld.doc)
+	if pi, msg := guard(func() { ld.doc.InternalizeRefs(context.Background(), nil) }); pi {
+		line["intern"] = "panic"
+		line["msg"] = msg
+		return []any{line}
+	}
+	line["intern"] = "ok"
+	line["va0"] = validateVerdict(ld.doc)
+	data, err := json.Marshal(ld.doc)
+	if err != nil {
+		line["marshal"] = "error"
+		return []any{line}
+	}
+	line["marshal"] = "ok"
+	var generic any
+	json.Unmarshal(data, &generic)
+	refs := []any{}
+	collectRefStrings(generic, &refs)
+	line["refs"] = refs
+	re, rerr := openapi3.NewLoader().LoadFromData(data) // external refs disallowed by default
+	if rerr != nil {
+		line["reload"] = "error"
+		line["reloadErr"] = rerr.Error()
+		return []any{line}
+	}
+	line["reload"] = "ok"
+	line["after"] = c02SitesJSON(re, ld.dir)
+	line["va"] = validateVerdict(re)
+	return []any{line}
+}
+
+func init() {
+	drivers["C16"] = &Driver{Run: c16Run, PerCaseTimeoutMs: 4000, Abnormal: func(c *Case, kind string) []any {
+		var raw map[string]any
+		c.Decode(&raw)
+		delete(raw, "files")
+		// re-load (cheap, and loading is not what died) so the premise "all refs resolved" can be judged
+		line := map[string]any{"case": c.Idx, "c": raw, "load": "ok", "intern": kind}
+		var tc c02Case
+		c.Decode(&tc)
+		c02Salt = fmt.Sprintf("~%d", c.Idx)
+		if ld := c02Load(&tc, true); ld != nil {
+			if ld.err == nil {
+				line["before"] = c02SitesJSON(ld.doc, ld.dir)
+			}
+			os.RemoveAll(ld.dir)
+		}
+		return []any{line}
+	}}
 }
